@@ -14,7 +14,9 @@ package bal
 //        so windows spanning it must be exact as well.
 
 import (
+	"encoding/json"
 	"fmt"
+	"os"
 	"strings"
 	"testing"
 
@@ -62,6 +64,7 @@ type c01Bal interface {
 	update(ms []beSpec) error
 	handles() map[string][]*backend.BfeBackend
 	credits() []string
+	order() []string
 }
 
 type c01RR struct{ brr *bal_slb.BalanceRR }
@@ -83,6 +86,7 @@ func (b *c01RR) update(ms []beSpec) error {
 }
 func (b *c01RR) handles() map[string][]*backend.BfeBackend { return rrHandles(b.brr) }
 func (b *c01RR) credits() []string                          { return rrCredits(b.brr) }
+func (b *c01RR) order() []string                            { return rrOrder(b.brr) }
 
 type c01Gslb struct {
 	r     *rig
@@ -107,14 +111,16 @@ func (b *c01Gslb) update(ms []beSpec) error { return b.r.reload(b.subs(ms)) }
 func (b *c01Gslb) handles() map[string][]*backend.BfeBackend {
 	return b.r.handles()[c01Sub]
 }
-func (b *c01Gslb) credits() []string {
+func (b *c01Gslb) brr() *bal_slb.BalanceRR {
 	for i := 0; i < b.r.bal.SubClusterNum(); i++ {
 		if n, brr := b.r.bal.VerifSubClusterAt(i); n == c01Sub {
-			return rrCredits(brr)
+			return brr
 		}
 	}
 	return nil
 }
+func (b *c01Gslb) credits() []string { return rrCredits(b.brr()) }
+func (b *c01Gslb) order() []string   { return rrOrder(b.brr()) }
 
 func c01Eligible(ms []beSpec, avail map[string]bool) []beSpec {
 	var out []beSpec
@@ -216,6 +222,99 @@ func (e *c01Epoch) firstBadWindow() (int, map[string]int) {
 	return -1, nil
 }
 
+// carry is NOT part of the oracle. It is the documented algorithm of
+// bal_rr.go ("credit starts at weight; pick the greatest credit, add weight to
+// every eligible credit, subtract the sum of credits from the chosen one") plus
+// the one assumption "credits survive a reload". It is consulted only after the
+// oracle found an inexact window in an epoch begun by a reload, to decide whether
+// the violation is exactly the known finding stale-credit-after-reload or
+// something else (which then fails under a different key).
+type carryEntry struct {
+	id     string
+	w      int
+	credit int
+	avail  bool
+}
+
+type carry struct{ es []carryEntry }
+
+func newCarry(ms []beSpec, avail map[string]bool) *carry {
+	c := &carry{}
+	for _, m := range ms {
+		c.es = append(c.es, carryEntry{m.key(), m.Weight, m.Weight, avail[m.key()]})
+	}
+	return c
+}
+
+func (c *carry) next() string {
+	best, total := -1, 0
+	for i := range c.es {
+		e := &c.es[i]
+		if !e.avail || e.w <= 0 {
+			continue
+		}
+		if best < 0 || e.credit > c.es[best].credit {
+			best = i
+		}
+		total += e.credit
+	}
+	if best < 0 {
+		return ""
+	}
+	for i := range c.es {
+		e := &c.es[i]
+		if e.avail && e.w > 0 {
+			e.credit += e.w
+		}
+	}
+	c.es[best].credit -= total
+	return c.es[best].id
+}
+
+// reload: survivors keep credit and availability (credit 0 when the new weight
+// is <= 0), new members start at credit = weight; entries are put in the order
+// the balancer now holds them (new members are appended in map order by bfe).
+func (c *carry) reload(next []beSpec, order []string) {
+	old := map[string]carryEntry{}
+	for _, e := range c.es {
+		old[e.id] = e
+	}
+	nw := map[string]carryEntry{}
+	for _, m := range next {
+		if o, ok := old[m.key()]; ok {
+			o.w = m.Weight
+			if m.Weight <= 0 {
+				o.credit = 0
+			}
+			nw[m.key()] = o
+		} else {
+			nw[m.key()] = carryEntry{m.key(), m.Weight, m.Weight, true}
+		}
+	}
+	c.es = c.es[:0]
+	for _, id := range order {
+		if e, ok := nw[id]; ok {
+			c.es = append(c.es, e)
+			delete(nw, id)
+		}
+	}
+}
+
+type c01Upd struct {
+	Kind string
+	Next []beSpec
+}
+
+type c01Plan struct {
+	Path       string // "rr" or "gslb"
+	Blackhole0 bool
+	Members    []beSpec
+	Down       []string
+	Periods    int
+	OffPct     int
+	Updates    []c01Upd
+}
+
 func genC01Weight(rt *rapid.T, regime string, mixZero bool, label string) int {
 	if mixZero {
 		switch rapid.IntRange(0, 9).Draw(rt, label+"z") {
@@ -229,237 +328,54 @@ func genC01Weight(rt *rapid.T, regime string, mixZero bool, label string) int {
 	case "tiny":
 		return rapid.IntRange(1, 3).Draw(rt, label)
 	case "big":
-		return rapid.IntRange(1, ev.N(100, 100)).Draw(rt, label)
+		return rapid.IntRange(1, 100).Draw(rt, label)
 	default:
 		return rapid.IntRange(1, 20).Draw(rt, label)
 	}
 }
 
-func TestC01(t *testing.T) {
-	rec := ev.New("C01", "1..8 backends (weights 1..20, sometimes 1..3 / 1..100 / all equal, weight<=0 and unavailable members mixed in) loaded by ClusterTableLoad into BalanceRR (direct) or a single-sub-cluster BalanceGslb installed via BalTable; 3..6 periods + offset of picks per epoch, up to 2 reloads (no-op, permuted no-op, reweight, member change). non-trivial: >=2 eligible backends with >=2 distinct weights and >=3 periods observed; distinct by members+weights+availability+path+pick counts+reload script")
-	rapid.Check(t, func(rt *rapid.T) { c01Case(rt, rec) })
-}
-
-func c01Case(rt *rapid.T, rec *ev.Rec) {
-	n := rapid.IntRange(1, 8).Draw(rt, "n")
+func genC01Plan(rt *rapid.T) (c01Plan, string) {
+	var p c01Plan
+	n := rapid.SampledFrom([]int{1, 2, 2, 2, 3, 3, 3, 4, 4, 5, 5, 6, 6, 7, 8, 8}).Draw(rt, "n")
 	regime := rapid.SampledFrom([]string{"small", "small", "small", "small", "tiny", "tiny", "big", "equal"}).Draw(rt, "regime")
 	mixZero := rapid.IntRange(0, 3).Draw(rt, "mixZero") == 0
 	mixDown := rapid.IntRange(0, 3).Draw(rt, "mixDown") == 0
-	viaGslb := rapid.Bool().Draw(rt, "viaGslb")
-	members := genEndpoints(rt, n, "endpoints")
+	p.Path = rapid.SampledFrom([]string{"rr", "gslb"}).Draw(rt, "path")
+	if p.Path == "gslb" {
+		p.Blackhole0 = rapid.Bool().Draw(rt, "withBlackhole0")
+	}
+	p.Members = genEndpoints(rt, n, "endpoints")
 	eq := 0
 	if regime == "equal" {
 		eq = rapid.IntRange(1, 20).Draw(rt, "eqw")
 	}
-	avail := map[string]bool{}
-	for i := range members {
+	for i := range p.Members {
 		if regime == "equal" {
-			members[i].Weight = eq
+			p.Members[i].Weight = eq
 		} else {
-			members[i].Weight = genC01Weight(rt, regime, mixZero, fmt.Sprintf("w%d", i))
+			p.Members[i].Weight = genC01Weight(rt, regime, mixZero, fmt.Sprintf("w%d", i))
 		}
-		avail[members[i].key()] = !(mixDown && rapid.IntRange(0, 3).Draw(rt, fmt.Sprintf("down%d", i)) == 0)
+		if mixDown && rapid.IntRange(0, 3).Draw(rt, fmt.Sprintf("down%d", i)) == 0 {
+			p.Down = append(p.Down, p.Members[i].key())
+		}
 	}
-	periods := rapid.IntRange(3, 6).Draw(rt, "periods")
-	offFrac := rapid.IntRange(0, 99).Draw(rt, "offset%")
+	p.Periods = rapid.IntRange(3, 6).Draw(rt, "periods")
+	p.OffPct = rapid.IntRange(0, 99).Draw(rt, "offset%")
 	nUpd := rapid.SampledFrom([]int{0, 1, 1, 2, 2}).Draw(rt, "nUpdates")
-
-	classes := []string{"n=" + fmt.Sprint(n), "regime=" + regime}
-	path := "rr"
-	if viaGslb {
-		path = "gslb"
+	r := regime
+	if r == "equal" {
+		r = "small"
 	}
-	classes = append(classes, "path="+path)
-	var fpb strings.Builder
-	fmt.Fprintf(&fpb, "%s|%s|", path, fmtBackends(members))
-	for _, m := range members {
-		if !avail[m.key()] {
-			fpb.WriteString("D")
-		} else {
-			fpb.WriteString("U")
-		}
-	}
-	fmt.Fprintf(&fpb, "|p%d o%d", periods, offFrac)
-
-	// build through the real loaders
-	var bal c01Bal
-	if viaGslb {
-		g := &c01Gslb{}
-		if rapid.Bool().Draw(rt, "withBlackhole0") {
-			g.extra = []subSpec{{Name: "GSLB_BLACKHOLE", Weight: 0, NoList: true}}
-		}
-		r, err := newRig(g.subs(members), gbSpec{CrossRetry: 0, RetryMax: 2, Strategy: stratIPOnly, Mode: "WRR"})
-		if err != nil {
-			rec.Excluded("loader-rejected")
-			return
-		}
-		g.r = r
-		req, err := mkReq(reqSpec{URI: "/", IP: "1.2.3.4"})
-		if err != nil {
-			rt.Fatalf("harness: %v", err)
-		}
-		g.req = req
-		bal = g
-	} else {
-		conf, err := loadSub(members)
-		if err != nil {
-			rec.Excluded("loader-rejected")
-			return
-		}
-		brr := bal_slb.NewBalanceRR("s")
-		brr.Init(conf)
-		bal = &c01RR{brr: brr}
-	}
-	hs := bal.handles()
-	hasDown, hasZero := false, false
-	for _, m := range members {
-		if !avail[m.key()] {
-			hasDown = true
-			for _, h := range hs[m.key()] {
-				h.SetAvail(false)
-			}
-		}
-		if m.Weight <= 0 {
-			hasZero = true
-		}
-	}
-	if hasDown {
-		classes = append(classes, "has-unavailable")
-	}
-	if hasZero {
-		classes = append(classes, "has-nonpositive-weight")
-	}
-
-	elig := c01Eligible(members, avail)
-	ep := newC01Epoch("init", elig)
-	model := newSWRR(elig)
-	var modelSeq []string
-	script := []string{}
-	witness := func() map[string]any {
-		return map[string]any{"path": path, "members": fmtBackends(members), "available": fmt.Sprint(avail),
-			"script": script, "epoch_started_by": ep.startedBy, "epoch_eligible": fmtBackends(ep.elig), "epoch_picks": len(ep.seq)}
-	}
-	suffix := func(i int) string {
-		if len(ep.noopAt) > 0 && i >= ep.noopAt[0] {
-			return "-after-noop-reload"
-		}
-		return ""
-	}
-
-	// run picks and check the epoch so far; returns false when the case must stop
-	doPicks := func(k int) bool {
-		for i := 0; i < k; i++ {
-			id, err := bal.pick()
-			if len(ep.elig) == 0 {
-				if err == nil {
-					w := witness()
-					w["picked"] = id
-					rec.Fail(rt, "pick-without-eligible", w, "no eligible backend but %s was returned", id)
-					return false
-				}
-				return true // nothing more to observe
-			}
-			if err != nil {
-				if !rec.Fail(rt, "error-with-eligible", witness(), "Balance failed (%v) although eligible backends exist: %s", err, fmtBackends(ep.elig)) {
-					return false
-				}
-			}
-			if _, ok := ep.want[id]; !ok {
-				w := witness()
-				w["picked"] = id
-				rec.Fail(rt, "ineligible-picked", w, "picked %s which is unavailable or has weight<=0", id)
-				return false
-			}
-			ep.seq = append(ep.seq, id)
-			if ep.startedBy == "init" {
-				modelSeq = append(modelSeq, model.next())
-			}
-		}
-		// (i) exact sequence from a fresh load
-		if ep.startedBy == "init" {
-			for i := range ep.seq {
-				if ep.seq[i] != modelSeq[i] {
-					w := witness()
-					w["index"] = i
-					w["got_prefix"] = ep.seq[:i+1]
-					w["want_prefix"] = modelSeq[:i+1]
-					if !rec.Fail(rt, "fresh-sequence"+suffix(i), w, "pick #%d after a fresh load is %s, smooth-WRR model says %s (eligible %s)", i, ep.seq[i], modelSeq[i], fmtBackends(ep.elig)) {
-						return false
-					}
-				}
-			}
-		}
-		// (ii)/(iv) window law
-		if s, cnt := ep.firstBadWindow(); s >= 0 {
-			w := witness()
-			w["window_start"] = s
-			w["window_counts"] = cnt
-			w["want_counts"] = ep.want
-			w["credits_now"] = bal.credits()
-			lo := s
-			hi := s + ep.W
-			if hi-lo > 64 {
-				hi = lo + 64
-			}
-			w["window_head"] = ep.seq[lo:hi]
-			key := "fresh-window" + suffix(s+ep.W-1)
-			if ep.startedBy != "init" {
-				key = "stale-credit-after-" + ep.startedBy
-			}
-			rec.Fail(rt, key, w, "window of W=%d picks starting at pick #%d of the epoch begun by %q has counts %v, want %v", ep.W, s, ep.startedBy, cnt, ep.want)
-			return false
-		}
-		// (iii) period W
-		for i := 0; i+ep.W < len(ep.seq); i++ {
-			if ep.seq[i] != ep.seq[i+ep.W] {
-				w := witness()
-				w["index"] = i
-				rec.Fail(rt, "period"+suffix(i+ep.W), w, "pick #%d (%s) differs from pick #%d (%s), period W=%d", i, ep.seq[i], i+ep.W, ep.seq[i+ep.W], ep.W)
-				return false
-			}
-		}
-		return true
-	}
-
-	pickCount := func() int {
-		w := ep.W
-		if w == 0 {
-			return 1
-		}
-		return periods*w + offFrac*w/100
-	}
-
-	nt := false
-	{
-		distinct := map[int]bool{}
-		for _, b := range elig {
-			distinct[b.Weight] = true
-		}
-		nt = len(elig) >= 2 && len(distinct) >= 2 && periods >= 3
-	}
-	if len(elig) == 0 {
-		classes = append(classes, "no-eligible")
-	}
-	if len(elig) == 1 {
-		classes = append(classes, "single-eligible")
-	}
-
-	ok := doPicks(pickCount())
-	updKinds := []string{}
-	for u := 0; ok && u < nUpd; u++ {
+	members := p.Members
+	for u := 0; u < nUpd; u++ {
 		kind := rapid.SampledFrom([]string{"noop", "noop-perm", "reweight", "reweight", "members", "members"}).Draw(rt, fmt.Sprintf("upd%d", u))
 		next := append([]beSpec(nil), members...)
 		switch kind {
-		case "noop":
 		case "noop-perm":
 			next = rapid.Permutation(next).Draw(rt, fmt.Sprintf("perm%d", u))
 		case "reweight":
 			for i := range next {
 				if rapid.Bool().Draw(rt, fmt.Sprintf("chg%d_%d", u, i)) {
-					r := regime
-					if r == "equal" {
-						r = "small"
-					}
 					next[i].Weight = genC01Weight(rt, r, mixZero, fmt.Sprintf("nw%d_%d", u, i))
 				}
 			}
@@ -479,17 +395,12 @@ func c01Case(rt *rapid.T, rec *ev.Rec) {
 			for _, m := range members {
 				used[m.key()] = true
 			}
-			cands := genEndpoints(rt, len(addrPool)*len(portPool), fmt.Sprintf("newEndpoints%d", u))
-			for _, c := range cands {
+			for _, c := range genEndpoints(rt, len(addrPool)*len(portPool), fmt.Sprintf("newEndpoints%d", u)) {
 				if add == 0 || len(next) >= 8 {
 					break
 				}
 				if used[c.key()] {
 					continue
-				}
-				r := regime
-				if r == "equal" {
-					r = "small"
 				}
 				c.Weight = genC01Weight(rt, r, false, fmt.Sprintf("addw%d_%d", u, add))
 				next = append(next, c)
@@ -499,17 +410,234 @@ func c01Case(rt *rapid.T, rec *ev.Rec) {
 				next = rapid.Permutation(next).Draw(rt, fmt.Sprintf("permM%d", u))
 			}
 		}
-		if err := bal.update(next); err != nil {
-			// the loader refuses a list without any positive weight: the old
-			// configuration stays in force in bfe, nothing to observe
+		p.Updates = append(p.Updates, c01Upd{kind, next})
+		members = next
+	}
+	return p, regime
+}
+
+func (p c01Plan) fingerprint() string {
+	var sb strings.Builder
+	fmt.Fprintf(&sb, "%s|%v|%s|%v|p%d o%d", p.Path, p.Blackhole0, fmtBackends(p.Members), p.Down, p.Periods, p.OffPct)
+	for _, u := range p.Updates {
+		fmt.Fprintf(&sb, "|%s:%s", u.Kind, fmtBackends(u.Next))
+	}
+	return sb.String()
+}
+
+func TestC01(t *testing.T) {
+	rec := ev.New("C01", "1..8 backends (weights 1..20, sometimes 1..3 / 1..100 / all equal, weight<=0 and unavailable members mixed in) loaded by ClusterTableLoad into BalanceRR (direct) or a single-sub-cluster BalanceGslb installed via BalTable; 3..6 periods + offset of WrrSmooth picks per epoch, up to 2 reloads (no-op, permuted no-op, reweight, member change). non-trivial: >=2 eligible backends with >=2 distinct weights and >=3 periods observed; distinct by members+weights+availability+path+pick counts+reload script")
+	if p := os.Getenv("VERIF_REPLAY_JSON"); p != "" {
+		var doc struct {
+			Witness struct {
+				Plan c01Plan `json:"plan"`
+			} `json:"witness"`
+		}
+		b, err := os.ReadFile(p)
+		if err != nil || json.Unmarshal(b, &doc) != nil || len(doc.Witness.Plan.Members) == 0 {
+			t.Fatalf("cannot read plan from %s", p)
+		}
+		c01Run(t, rec, doc.Witness.Plan, "replay")
+		return
+	}
+	// the minimal hand-made witness of clause (iv) (kept as a regression)
+	a, b := beSpec{"a", "10.0.0.1", 80, 1}, beSpec{"b", "10.0.0.2", 80, 2}
+	b1 := b
+	b1.Weight = 1
+	c01Run(t, rec, c01Plan{Path: "rr", Members: []beSpec{a, b}, Periods: 3, Updates: []c01Upd{{"reweight", []beSpec{a, b1}}}}, "witness")
+	rapid.Check(t, func(rt *rapid.T) {
+		p, regime := genC01Plan(rt)
+		c01Run(rt, rec, p, "regime="+regime)
+	})
+}
+
+func c01Run(tb ev.TB, rec *ev.Rec, p c01Plan, class string) {
+	members := p.Members
+	avail := map[string]bool{}
+	for _, m := range members {
+		avail[m.key()] = true
+	}
+	for _, d := range p.Down {
+		avail[d] = false
+	}
+	classes := []string{class, fmt.Sprintf("n=%d", len(members)), "path=" + p.Path}
+
+	// build through the real loaders
+	var bal c01Bal
+	if p.Path == "gslb" {
+		g := &c01Gslb{}
+		if p.Blackhole0 {
+			g.extra = []subSpec{{Name: "GSLB_BLACKHOLE", Weight: 0, NoList: true}}
+		}
+		r, err := newRig(g.subs(members), gbSpec{CrossRetry: 0, RetryMax: 2, Strategy: stratIPOnly, Mode: "WRR"})
+		if err != nil {
+			rec.Excluded("loader-rejected")
+			return
+		}
+		g.r = r
+		req, err := mkReq(reqSpec{URI: "/", IP: "1.2.3.4"})
+		if err != nil {
+			tb.Fatalf("harness: %v", err)
+		}
+		g.req = req
+		bal = g
+	} else {
+		conf, err := loadSub(members)
+		if err != nil {
+			rec.Excluded("loader-rejected")
+			return
+		}
+		brr := bal_slb.NewBalanceRR("s")
+		brr.Init(conf)
+		bal = &c01RR{brr: brr}
+	}
+	hs := bal.handles()
+	hasZero := false
+	for _, m := range members {
+		if !avail[m.key()] {
+			for _, h := range hs[m.key()] {
+				h.SetAvail(false)
+			}
+		}
+		if m.Weight <= 0 {
+			hasZero = true
+		}
+	}
+	if len(p.Down) > 0 {
+		classes = append(classes, "has-unavailable")
+	}
+	if hasZero {
+		classes = append(classes, "has-nonpositive-weight")
+	}
+
+	elig := c01Eligible(members, avail)
+	ep := newC01Epoch("init", elig)
+	model := newSWRR(elig)
+	cm := newCarry(members, avail)
+	var modelSeq, carrySeq []string
+	witness := func() map[string]any {
+		return map[string]any{"plan": p, "epoch_started_by": ep.startedBy, "epoch_eligible": fmtBackends(ep.elig),
+			"epoch_picks": len(ep.seq), "credits_now": bal.credits()}
+	}
+	suffix := func(i int) string {
+		if len(ep.noopAt) > 0 && i >= ep.noopAt[0] {
+			return "-after-noop-reload"
+		}
+		return ""
+	}
+
+	// run k picks and check the epoch so far; false = stop the case
+	doPicks := func(k int) bool {
+		for i := 0; i < k; i++ {
+			id, err := bal.pick()
+			if len(ep.elig) == 0 {
+				if err == nil {
+					w := witness()
+					w["picked"] = id
+					rec.Fail(tb, "pick-without-eligible", w, "no eligible backend but %s was returned", id)
+					return false
+				}
+				return true // nothing more to observe
+			}
+			if err != nil {
+				rec.Fail(tb, "error-with-eligible", witness(), "Balance failed (%v) although eligible backends exist: %s", err, fmtBackends(ep.elig))
+				return false
+			}
+			if _, ok := ep.want[id]; !ok {
+				w := witness()
+				w["picked"] = id
+				rec.Fail(tb, "ineligible-picked", w, "picked %s which is unavailable or has weight<=0", id)
+				return false
+			}
+			ep.seq = append(ep.seq, id)
+			carrySeq = append(carrySeq, cm.next())
+			if ep.startedBy == "init" {
+				modelSeq = append(modelSeq, model.next())
+			}
+		}
+		// (i) exact sequence from a fresh load
+		if ep.startedBy == "init" {
+			for i := range ep.seq {
+				if ep.seq[i] != modelSeq[i] {
+					w := witness()
+					w["index"] = i
+					w["got_prefix"] = ep.seq[:i+1]
+					w["want_prefix"] = modelSeq[:i+1]
+					rec.Fail(tb, "fresh-sequence"+suffix(i), w, "pick #%d after a fresh load is %s, smooth-WRR model says %s (eligible %s)", i, ep.seq[i], modelSeq[i], fmtBackends(ep.elig))
+					return false
+				}
+			}
+		}
+		// (ii)/(iv) window law
+		if s, cnt := ep.firstBadWindow(); s >= 0 {
+			w := witness()
+			w["window_start"] = s
+			w["window_counts"] = cnt
+			w["want_counts"] = ep.want
+			hi := s + ep.W
+			if hi-s > 64 {
+				hi = s + 64
+			}
+			w["window_head"] = ep.seq[s:hi]
+			key := "fresh-window" + suffix(s+ep.W-1)
+			if ep.startedBy != "init" {
+				key = "post-reload-window"
+				same := len(carrySeq) == len(ep.seq)
+				for i := 0; same && i < len(ep.seq); i++ {
+					same = carrySeq[i] == ep.seq[i]
+				}
+				if same {
+					key = "stale-credit-after-reload"
+				}
+			}
+			rec.Fail(tb, key, w, "window of W=%d picks starting at pick #%d of the epoch begun by %q has counts %v, want %v", ep.W, s, ep.startedBy, cnt, ep.want)
+			return false
+		}
+		// (iii) period W
+		for i := 0; i+ep.W < len(ep.seq); i++ {
+			if ep.seq[i] != ep.seq[i+ep.W] {
+				w := witness()
+				w["index"] = i
+				rec.Fail(tb, "period"+suffix(i+ep.W), w, "pick #%d (%s) differs from pick #%d (%s), period W=%d", i, ep.seq[i], i+ep.W, ep.seq[i+ep.W], ep.W)
+				return false
+			}
+		}
+		return true
+	}
+	pickCount := func() int {
+		if ep.W == 0 {
+			return 1
+		}
+		return p.Periods*ep.W + p.OffPct*ep.W/100
+	}
+
+	distinct := map[int]bool{}
+	for _, b := range elig {
+		distinct[b.Weight] = true
+	}
+	nt := len(elig) >= 2 && len(distinct) >= 2 && p.Periods >= 3
+	switch len(elig) {
+	case 0:
+		classes = append(classes, "no-eligible")
+	case 1:
+		classes = append(classes, "single-eligible")
+	}
+
+	ok := doPicks(pickCount())
+	nUpd := 0
+	for _, u := range p.Updates {
+		if !ok {
+			break
+		}
+		if err := bal.update(u.Next); err != nil {
+			// the loader refuses a list without any positive weight: bfe keeps
+			// the old configuration, nothing new to observe
 			rec.Excluded("reload-rejected")
 			break
 		}
-		script = append(script, fmt.Sprintf("%s@%d -> %s", kind, len(ep.seq), fmtBackends(next)))
-		fmt.Fprintf(&fpb, "|%s@%d:%s", kind, len(ep.seq), fmtBackends(next))
-		// availability model: surviving members keep their state, new ones start available
-		nav := map[string]bool{}
-		for _, m := range next {
+		nUpd++
+		nav := map[string]bool{} // survivors keep their state, new members start available
+		for _, m := range u.Next {
 			if a, was := avail[m.key()]; was {
 				nav[m.key()] = a
 			} else {
@@ -517,25 +645,26 @@ func c01Case(rt *rapid.T, rec *ev.Rec) {
 			}
 		}
 		avail = nav
-		members = next
+		members = u.Next
+		cm.reload(members, bal.order())
 		nelig := c01Eligible(members, avail)
 		if c01Same(ep.elig, nelig) {
 			ep.noopAt = append(ep.noopAt, len(ep.seq))
-			updKinds = append(updKinds, "upd=effective-noop("+kind+")")
+			classes = append(classes, "upd=effective-noop("+u.Kind+")")
 		} else {
 			by := "members"
 			if c01SameMembers(ep.elig, nelig) {
 				by = "reweight"
 			}
-			updKinds = append(updKinds, "upd=changed-"+by)
+			classes = append(classes, "upd=changed-"+by)
 			ep = newC01Epoch(by, nelig)
+			carrySeq = nil
 		}
 		ok = doPicks(pickCount())
 	}
-	classes = append(classes, updKinds...)
-	if len(updKinds) == 0 {
+	if nUpd == 0 {
 		classes = append(classes, "upd=none")
 	}
-	rec.Case(fpb.String(), nt, classes...)
-	rec.Sample(map[string]any{"path": path, "members": fmtBackends(members), "script": script, "periods": periods})
+	rec.Case(p.fingerprint(), nt, classes...)
+	rec.Sample(p)
 }
